@@ -732,23 +732,20 @@ class SSHTransportBase(protocol.Protocol):
         """
         self.buf = self.buf + data
         if not self.gotVersion:
-            if len(self.buf) > 4096:
-                self.sendDisconnect(
-                    DISCONNECT_CONNECTION_LOST,
-                    b"Peer version string longer than 4KB. "
-                    b"Preventing a denial of service attack.",
-                )
-                return
-
-            if self.buf.find(b"\n", self.buf.find(b"SSH-")) == -1:
-                return
-
+            # The version line is the first complete line which starts with
+            # "SSH-"; lines received before it are ignored (RFC 4253 section
+            # 4.2).  It is looked for in the first 4KB only, however the data
+            # happens to be split into deliveries.
+            #
             # RFC 4253 section 4.2 ask for strict `\r\n` line ending.
             # Here we are a bit more relaxed and accept implementations ending
             # only in '\n'.
             # https://tools.ietf.org/html/rfc4253#section-4.2
-            lines = self.buf.split(b"\n")
-            for p in lines:
+            head = self.buf[:4096]
+            start = 0
+            end = head.find(b"\n")
+            while end != -1:
+                p = head[start:end]
                 if p.startswith(b"SSH-"):
                     self.gotVersion = True
                     # Since the line was split on '\n' and most of the time
@@ -758,8 +755,18 @@ class SSHTransportBase(protocol.Protocol):
                     if remoteVersion not in self.supportedVersions:
                         self._unsupportedVersionReceived(remoteVersion)
                         return
-                    i = lines.index(p)
-                    self.buf = b"\n".join(lines[i + 1 :])
+                    self.buf = self.buf[end + 1 :]
+                    break
+                start = end + 1
+                end = head.find(b"\n", start)
+            if not self.gotVersion:
+                if len(self.buf) > 4096:
+                    self.sendDisconnect(
+                        DISCONNECT_CONNECTION_LOST,
+                        b"Peer version string longer than 4KB. "
+                        b"Preventing a denial of service attack.",
+                    )
+                return
         packet = self.getPacket()
         while packet:
             messageNum = ord(packet[0:1])
